@@ -99,3 +99,47 @@ class Mir:
 
     def adt(self, crate, path):
         return self.adts.get((crate, path))
+
+
+def adt_refs(mir, ty, crate):
+    """workspace ADT keys mentioned in a type string"""
+    out = []
+    for m in re.finditer(r"[A-Za-z_][A-Za-z0-9_]*(?:::[A-Za-z_][A-Za-z0-9_]*)*", ty):
+        p = m.group(0)
+        cands = [(crate, p), ("compiler", p)]
+        if "::" in p:
+            head, rest = p.split("::", 1)
+            cands.append((head, rest))
+        for key in cands:
+            if key in mir.adts:
+                out.append(key)
+                break
+    return out
+
+
+def reachable_adts(mir, root_key):
+    """{adt key: path string} for every workspace ADT reachable from root by field inclusion"""
+    seen = {}
+    work = [(root_key, mir.adts[root_key]["path"])]
+    while work:
+        key, path = work.pop()
+        if key in seen:
+            continue
+        seen[key] = path
+        a = mir.adts[key]
+        for v in a["variants"]:
+            for f in v["fields"]:
+                for k2 in adt_refs(mir, f["ty"], key[0]):
+                    if k2 not in seen:
+                        work.append((k2, f"{path} -> {a['path']}.{f['name']}"))
+    return seen
+
+
+def find_adt(mir, name):
+    c = [k for k in mir.adts if k[1] == name or k[1].endswith("::" + name)]
+    if len(c) == 1:
+        return c[0]
+    exact = [k for k in c if k[1] == name]
+    if len(exact) == 1:
+        return exact[0]
+    raise AnalysisIncomplete(f"ADT {name}: {len(c)} candidates {c[:5]}")
